@@ -8,3 +8,10 @@ import SuxModel.Props.C02Small9
 #print axioms Sux.RS.small_layer_select_zero_correct
 #print axioms Sux.RS.select9_query_correct
 #print axioms Sux.RS.select9_build_inventory_partial
+#print axioms Sux.RS.select9_build_establishes_inv
+#print axioms Sux.RS.select9_layer_select_correct
+#print axioms Sux.RS.select9_view_is_rank9_build
+#print axioms Sux.RS.select9_over_rank9_select_correct
+#print axioms Sux.RS.small_view_is_rankSmall_build
+#print axioms Sux.RS.small_over_rankSmall_select_correct
+#print axioms Sux.RS.small_over_rankSmall_select_zero_correct
